@@ -4,9 +4,11 @@
    (UperProofs, OerProofs, DerProofs), and forward compatibility: a type that
    knows only the first k additions gets the known part of the value back and
    leaves exactly what followed the encoding.
-   Where the C deviates the statement carries the side condition under which
-   the C is right ([..._partial] readings: std = false) and the deviation is
-   witnessed by a [..._refuted] theorem. *)
+   The statements hold for the C as it is (std = false hands the C's reading of
+   the base codecs down to the components) without side conditions on the number
+   of additions or on the sizes of the additions a reader skips: the four
+   deviations once witnessed here (uper_put_nslength, uper_put_nsnnwn,
+   uper_open_type_skip, oer_open_type_skip) are repaired in the C. *)
 From Coq Require Import ZArith List Lia Bool ZifyBool.
 From A1 Require Import Base.Bytes Leaf.IntegerConv Leaf.BerTL Rt.Types Rt.TypesInd Rt.Comb Rt.Der Rt.DerProofs
   Rt.Uper Rt.UperBits Rt.UperCounted Rt.UperProofs Rt.Oer Rt.OerLeaf Rt.OerProofs Rt.Ext Rt.ExtFormat.
@@ -236,10 +238,9 @@ Proof.
     destruct (Z.of_nat (pad_len (length bits)) <? 8) eqn:E; [reflexivity|lia].
 Qed.
 
-Lemma uper_open_skip_rt std c r : bytes_ok c -> uper_skippable std c = true ->
-  uper_open_skip std (open_type c ++ r) = Some r.
+Lemma uper_open_skip_rt c r : bytes_ok c -> uper_open_skip (open_type c ++ r) = Some r.
 Proof.
-  intros Hc Hs. unfold uper_open_skip. rewrite get_open_bytes_open_type by exact Hc. rewrite Hs. reflexivity.
+  intros Hc. unfold uper_open_skip. rewrite get_open_bytes_open_type by exact Hc. reflexivity.
 Qed.
 
 (* ---------------- hypotheses ---------------- *)
@@ -247,7 +248,9 @@ Qed.
 Definition wf_ety_uper (t : ety) : bool :=
   match t with
   | ESeq tg root adds => wf_u (TSeq tg root) && forallb wf_ty_uper adds
-  | EChoice root exts => wf_u (TChoice root) && wf_u (TChoice exts)
+  | EChoice root exts =>
+      (* uper_get_nsnnwn reads an index of at most two octets (a limit of the implementation) *)
+      wf_u (TChoice root) && wf_u (TChoice exts) && (zlen exts <=? 65536)
   end.
 
 Definition uper_add_ok (std : bool) (t : ty) (v : val) : Prop :=
@@ -261,13 +264,6 @@ Definition wt_ety_uper (std : bool) (t : ety) (v : eval) : Prop :=
       if (i <? length root)%nat then wt_uper std (TChoice root) (VChoice i v') = true
       else wt_uper std (TChoice exts) (VChoice (i - length root) v') = true
   | _, _ => False
-  end.
-
-(* what the C's writers of the number of additions / of the alternative index get right *)
-Definition ext_count_ok (std : bool) (t : ety) : Prop :=
-  match t with
-  | ESeq _ _ adds => std = true \/ zlen adds <= 64
-  | EChoice _ exts => (std = true /\ zlen exts <= 65536) \/ zlen exts <= 64
   end.
 
 Lemma adds_ok_wf std adds avs : forallb wf_ty_uper adds = true ->
@@ -300,27 +296,26 @@ Qed.
    that reader returns on the sender's bitmap and open types is what the reader returns *)
 Lemma ext_uper_seq_gen std tg root adds dadds rvs avs davs bits rest :
   wf_u (TSeq tg root) = true -> wt_uper std (TSeq tg root) (VSeq rvs) = true ->
-  ext_count_ok std (ESeq tg root adds) ->
   ext_uper std (ESeq tg root adds) (EVSeq rvs avs) = Some bits ->
   (forall ots, enc_additions (uper_encode std) open_type adds avs = Some ots ->
-     dec_additions (uper_open_get std) (uper_open_skip std) dadds (map is_present avs) (ots ++ rest) = Some (davs, rest)) ->
+     dec_additions (uper_open_get std) uper_open_skip dadds (map is_present avs) (ots ++ rest) = Some (davs, rest)) ->
   (existsb is_present avs = false -> davs = absent_all dadds) ->
   ext_uper_dec std (ESeq tg root dadds) (bits ++ rest) = Some (EVSeq rvs davs, rest).
 Proof.
-  intros Hwfr Hwr Hcnt He Hadd Hnone.
+  intros Hwfr Hwr He Hadd Hnone.
   cbn [ext_uper] in He.
   destruct (enc_members (uper std) root rvs) as [body|] eqn:Eb; [|discriminate].
   destruct (enc_additions (uper_encode std) open_type adds avs) as [ots|] eqn:Eo; [|discriminate].
   pose proof (enc_additions_length _ _ _ _ _ Eo) as Hlen.
   destruct (existsb is_present avs) eqn:Eany.
-  - destruct (nslength std (zlen adds)) as [nl|] eqn:En; [|discriminate]. injection He as <-.
+  - destruct (nslength (zlen adds)) as [nl|] eqn:En; [|discriminate]. injection He as <-.
     cbn [ext_uper_dec app].
     replace ((presence_bits root rvs ++ body ++ nl ++ map is_present avs ++ ots) ++ rest)
       with ((presence_bits root rvs ++ body) ++ (nl ++ map is_present avs ++ ots ++ rest))
       by (rewrite <- !app_assoc; reflexivity).
     destruct (uper_root_rt std tg root rvs body (nl ++ map is_present avs ++ ots ++ rest) Hwfr Hwr Eb) as [H1 H2].
     rewrite H1, H2.
-    rewrite (nslength_rt std (zlen adds) nl _ Hcnt En).
+    rewrite (nslength_rt (zlen adds) nl _ En).
     rewrite (take_bits_app_eq (Z.to_nat (zlen adds)) (map is_present avs))
       by (rewrite map_length, Hlen; unfold zlen; lia).
     rewrite (Hadd ots eq_refl). reflexivity.
@@ -329,33 +324,30 @@ Proof.
     rewrite H1, H2. rewrite (Hnone eq_refl). reflexivity.
 Qed.
 
-Lemma all_enc_uper_ok std : forall ts vs,
-  all_enc (uper_encode std) (fun c => uper_skippable std c = true) ts vs ->
-  all_enc (uper_encode std) (fun c => bytes_ok c /\ uper_skippable std c = true) ts vs.
+(* what the reader skips is a string of octets: all uper_open_skip needs *)
+Lemma all_enc_uper_ok std : forall ts vs, all_enc (uper_encode std) bytes_ok ts vs.
 Proof.
-  induction ts as [|t ts IH]; intros vs H; destruct vs as [|v vs]; cbn [all_enc] in *; auto.
-  destruct v; auto. destruct H as [Hc Hr]. split; [|auto].
-  intros c Hcc. split; [eapply uper_encode_ok; eauto|auto].
+  induction ts as [|t ts IH]; intros vs; destruct vs as [|v vs]; cbn [all_enc]; auto.
+  destruct v; auto. split; [|auto].
+  intros c Hcc. eapply uper_encode_ok; eauto.
 Qed.
 
 Theorem ext_uper_seq_fwd std tg root adds rvs avs bits rest k :
   wf_ety_uper (ESeq tg root adds) = true -> wt_ety_uper std (ESeq tg root adds) (EVSeq rvs avs) ->
-  ext_count_ok std (ESeq tg root adds) ->
   ext_uper std (ESeq tg root adds) (EVSeq rvs avs) = Some bits ->
-  all_enc (uper_encode std) (fun c => uper_skippable std c = true) (skipn k adds) (skipn k avs) ->
   ext_uper_dec std (ESeq tg root (firstn k adds)) (bits ++ rest) = Some (EVSeq rvs (firstn k avs), rest).
 Proof.
-  intros Hwf [Hwr Hwa] Hcnt He Hsk. cbn [wf_ety_uper] in Hwf. apply andb_true_iff in Hwf. destruct Hwf as [Hwfr Hwfa].
+  intros Hwf [Hwr Hwa] He. cbn [wf_ety_uper] in Hwf. apply andb_true_iff in Hwf. destruct Hwf as [Hwfr Hwfa].
   pose proof (adds_ok_wf std adds avs Hwfa Hwa) as Hok.
-  apply (ext_uper_seq_gen std tg root adds (firstn k adds) rvs avs (firstn k avs) bits rest Hwfr Hwr Hcnt He).
+  apply (ext_uper_seq_gen std tg root adds (firstn k adds) rvs avs (firstn k avs) bits rest Hwfr Hwr He).
   - intros ots Eo.
-    apply (additions_fwd (uper_encode std) open_type (uper_open_get std) (uper_open_skip std)
-             (uper_add_ok std) (fun c => bytes_ok c /\ uper_skippable std c = true)).
+    apply (additions_fwd (uper_encode std) open_type (uper_open_get std) uper_open_skip
+             (uper_add_ok std) bytes_ok).
     + intros t v c r [Hw1 Hw2] Hc. apply uper_open_get_rt; assumption.
-    + intros c r [Hc1 Hc2]. apply uper_open_skip_rt; assumption.
+    + intros c r Hc. apply uper_open_skip_rt; assumption.
     + exact Hok.
     + exact Eo.
-    + apply all_enc_uper_ok. exact Hsk.
+    + apply all_enc_uper_ok.
   - intros Eany. cbn [ext_uper] in He.
     destruct (enc_members (uper std) root rvs); [|discriminate].
     destruct (enc_additions (uper_encode std) open_type adds avs) as [ots|] eqn:Eo; [|discriminate].
@@ -366,15 +358,14 @@ Qed.
    [more] beyond them: the value comes back with the further additions absent *)
 Theorem ext_uper_seq_bwd std tg root known more rvs avs bits rest :
   wf_ety_uper (ESeq tg root known) = true -> wt_ety_uper std (ESeq tg root known) (EVSeq rvs avs) ->
-  ext_count_ok std (ESeq tg root known) ->
   ext_uper std (ESeq tg root known) (EVSeq rvs avs) = Some bits ->
   ext_uper_dec std (ESeq tg root (known ++ more)) (bits ++ rest) = Some (EVSeq rvs (avs ++ absent_all more), rest).
 Proof.
-  intros Hwf [Hwr Hwa] Hcnt He. cbn [wf_ety_uper] in Hwf. apply andb_true_iff in Hwf. destruct Hwf as [Hwfr Hwfa].
+  intros Hwf [Hwr Hwa] He. cbn [wf_ety_uper] in Hwf. apply andb_true_iff in Hwf. destruct Hwf as [Hwfr Hwfa].
   pose proof (adds_ok_wf std known avs Hwfa Hwa) as Hok.
-  apply (ext_uper_seq_gen std tg root known (known ++ more) rvs avs (avs ++ absent_all more) bits rest Hwfr Hwr Hcnt He).
+  apply (ext_uper_seq_gen std tg root known (known ++ more) rvs avs (avs ++ absent_all more) bits rest Hwfr Hwr He).
   - intros ots Eo.
-    apply (additions_bwd (uper_encode std) open_type (uper_open_get std) (uper_open_skip std) (uper_add_ok std)).
+    apply (additions_bwd (uper_encode std) open_type (uper_open_get std) uper_open_skip (uper_add_ok std)).
     + intros t v c r [Hw1 Hw2] Hc. apply uper_open_get_rt; assumption.
     + exact Hok.
     + exact Eo.
@@ -393,18 +384,17 @@ Proof. exact I. Qed.
 (* C01 for an extensible SEQUENCE in unaligned PER, in a stream *)
 Theorem ext_uper_seq_rt std tg root adds rvs avs bits rest :
   wf_ety_uper (ESeq tg root adds) = true -> wt_ety_uper std (ESeq tg root adds) (EVSeq rvs avs) ->
-  ext_count_ok std (ESeq tg root adds) ->
   ext_uper std (ESeq tg root adds) (EVSeq rvs avs) = Some bits ->
   ext_uper_dec std (ESeq tg root adds) (bits ++ rest) = Some (EVSeq rvs avs, rest).
 Proof.
-  intros Hwf Hwt Hc He.
+  intros Hwf Hwt He.
   assert (Hlen : length avs = length adds).
   { cbn [ext_uper] in He. destruct (enc_members (uper std) root rvs); [|discriminate].
     destruct (enc_additions (uper_encode std) open_type adds avs) eqn:E; [|discriminate].
     eapply enc_additions_length; eauto. }
-  pose proof (ext_uper_seq_fwd std tg root adds rvs avs bits rest (length adds) Hwf Hwt Hc He) as H.
+  pose proof (ext_uper_seq_fwd std tg root adds rvs avs bits rest (length adds) Hwf Hwt He) as H.
   rewrite firstn_length_all in H. rewrite (firstn_all2 avs) in H by lia.
-  apply H. rewrite skipn_all. exact I.
+  exact H.
 Qed.
 
 Lemma forallb_nth {A} (p : A -> bool) l i a : forallb p l = true -> nth_error l i = Some a -> p a = true.
@@ -412,11 +402,11 @@ Proof. intros H Hn. rewrite forallb_forall in H. apply H. eapply nth_error_In; e
 
 Theorem ext_uper_choice_rt std root exts i v' bits rest :
   wf_ety_uper (EChoice root exts) = true -> wt_ety_uper std (EChoice root exts) (EVAlt i v') ->
-  ext_count_ok std (EChoice root exts) ->
   ext_uper std (EChoice root exts) (EVAlt i v') = Some bits ->
   ext_uper_dec std (EChoice root exts) (bits ++ rest) = Some (EVAlt i v', rest).
 Proof.
-  intros Hwf Hwt Hcnt He. cbn [wf_ety_uper] in Hwf. apply andb_true_iff in Hwf. destruct Hwf as [Hwr Hwx].
+  intros Hwf Hwt He. cbn [wf_ety_uper] in Hwf. apply andb_true_iff in Hwf. destruct Hwf as [Hwf Hcnt].
+  apply andb_true_iff in Hwf. destruct Hwf as [Hwr Hwx].
   cbn [wt_ety_uper] in Hwt. cbn [ext_uper] in He.
   destruct (i <? length root)%nat eqn:Ei.
   - (* root alternative *)
@@ -437,7 +427,7 @@ Proof.
   - (* extension alternative *)
     apply Nat.ltb_ge in Ei. set (j := (i - length root)%nat) in *.
     destruct (enc_alt (uper_encode std) v' exts j) as [c|] eqn:Ec; [|discriminate].
-    destruct (nsnnwn std (choice_index (cstd std) exts j)) as [ix|] eqn:Ex; [|discriminate].
+    destruct (nsnnwn (choice_index (cstd std) exts j)) as [ix|] eqn:Ex; [|discriminate].
     injection He as <-.
     destruct (enc_alt_nth _ _ _ _ _ Ec) as (a & Hn & Ea).
     pose proof (nth_error_lt _ _ _ Hn) as Hj.
@@ -445,7 +435,7 @@ Proof.
     apply andb_true_iff in Hwx. destruct Hwx as [Hwa Hno].
     pose proof (choice_index_bound (cstd std) exts j Hj) as Hb.
     cbn [ext_uper_dec app]. rewrite <- app_assoc.
-    rewrite (nsnnwn_rt std (choice_index (cstd std) exts j) ix (open_type c ++ rest)); [| | |exact Ex].
+    rewrite (nsnnwn_rt (choice_index (cstd std) exts j) ix (open_type c ++ rest)); [| |exact Ex].
     + rewrite (dec_alt_pick (uper_open_get std) _ _ exts (length root) j a v' rest Hn).
       * replace (length root + j)%nat with i by (subst j; lia). reflexivity.
       * apply uper_open_get_rt; [| |exact Ea].
@@ -455,16 +445,15 @@ Proof.
       * intros j' a' Hj' Hn'. replace (length root + j' - length root)%nat with j' by lia.
         apply Z.eqb_neq. intros Heq.
         apply (choice_index_inj (cstd std) exts j' j Hkd) in Heq; lia.
-    + cbn [ext_count_ok] in Hcnt. destruct Hcnt as [[Hs _]|Hs]; [left; exact Hs|right; lia].
-    + cbn [ext_count_ok] in Hcnt. destruct Hcnt as [[_ Hs]|Hs]; lia.
+    + lia.
 Qed.
 
 (* C01, unaligned PER, the extensible types of the layer, in a stream *)
 Theorem ext_uper_roundtrip_in_stream std t v bits rest :
-  wf_ety_uper t = true -> wt_ety_uper std t v -> ext_count_ok std t ->
+  wf_ety_uper t = true -> wt_ety_uper std t v ->
   ext_uper std t v = Some bits -> ext_uper_dec std t (bits ++ rest) = Some (v, rest).
 Proof.
-  destruct t as [tg root adds|root exts]; destruct v as [rvs avs|i v']; intros Hwf Hwt Hc He;
+  destruct t as [tg root adds|root exts]; destruct v as [rvs avs|i v']; intros Hwf Hwt He;
     try (cbn [wt_ety_uper] in Hwt; contradiction).
   - apply ext_uper_seq_rt; assumption.
   - apply ext_uper_choice_rt; assumption.
@@ -472,44 +461,31 @@ Qed.
 
 (* complete encodings: the value comes back and exactly the octets produced are consumed *)
 Theorem ext_uper_decode_roundtrip std t v bytes :
-  wf_ety_uper t = true -> wt_ety_uper std t v -> ext_count_ok std t ->
+  wf_ety_uper t = true -> wt_ety_uper std t v ->
   ext_uper_encode std t v = Some bytes ->
   ext_uper_decode std t bytes = Some (v, zlen bytes) /\ 1 <= zlen bytes.
 Proof.
-  intros Hwf Hwt Hc He. unfold ext_uper_encode in He.
+  intros Hwf Hwt He. unfold ext_uper_encode in He.
   destruct (ext_uper std t v) as [bits|] eqn:Eu; [|discriminate].
   unfold ext_uper_decode.
   destruct bits as [|b0 tl] eqn:Ebits.
   - injection He as <-.
-    pose proof (ext_uper_roundtrip_in_stream std t v [] (bytes_bits [0]) Hwf Hwt Hc Eu) as Hr.
+    pose proof (ext_uper_roundtrip_in_stream std t v [] (bytes_bits [0]) Hwf Hwt Eu) as Hr.
     cbn [app] in Hr. rewrite Hr. rewrite Z.sub_diag. split; reflexivity.
   - rewrite <- Ebits in *. injection He as <-.
     destruct (bits_to_bytes_spec bits) as [Hb Hl]. rewrite Hb, Hl.
-    rewrite (ext_uper_roundtrip_in_stream std t v bits _ Hwf Hwt Hc Eu).
+    rewrite (ext_uper_roundtrip_in_stream std t v bits _ Hwf Hwt Eu).
     rewrite zlen_app. assert (Hpos : 1 <= zlen bits) by (rewrite Ebits, zlen_cons; pose proof (zlen_nonneg tl); lia).
     split; [|lia]. f_equal. f_equal. lia.
 Qed.
 
-(* forward compatibility in unaligned PER: a reader that knows the first k additions *)
+(* forward compatibility in unaligned PER: a reader that knows the first k additions gets the known part of
+   the value and skips every further addition, whatever its size *)
 Theorem ext_uper_forward_compat std tg root adds rvs avs bits rest k :
   wf_ety_uper (ESeq tg root adds) = true -> wt_ety_uper std (ESeq tg root adds) (EVSeq rvs avs) ->
-  ext_count_ok std (ESeq tg root adds) ->
   ext_uper std (ESeq tg root adds) (EVSeq rvs avs) = Some bits ->
-  all_enc (uper_encode std) (fun c => uper_skippable std c = true) (skipn k adds) (skipn k avs) ->
   ext_uper_dec std (truncate_ty k (ESeq tg root adds)) (bits ++ rest) = Some (truncate_val k (EVSeq rvs avs), rest).
 Proof. exact (ext_uper_seq_fwd std tg root adds rvs avs bits rest k). Qed.
-
-(* under the standard reading every unknown addition is skipped *)
-Corollary ext_uper_forward_compat_std tg root adds rvs avs bits rest k :
-  wf_ety_uper (ESeq tg root adds) = true -> wt_ety_uper true (ESeq tg root adds) (EVSeq rvs avs) ->
-  ext_uper true (ESeq tg root adds) (EVSeq rvs avs) = Some bits ->
-  ext_uper_dec true (truncate_ty k (ESeq tg root adds)) (bits ++ rest) = Some (truncate_val k (EVSeq rvs avs), rest).
-Proof.
-  intros Hwf Hwt He. apply ext_uper_forward_compat; try assumption.
-  - left. reflexivity.
-  - generalize (skipn k adds) (skipn k avs). induction l as [|t ts IH]; intros vs; destruct vs as [|v vs]; cbn [all_enc]; auto.
-    destruct v; auto.
-Qed.
 
 (* ================= OER ================= *)
 
@@ -576,17 +552,12 @@ Proof.
   rewrite H. reflexivity.
 Qed.
 
-(* what oer_open_type_skip gets over: anything under X.696; for the C only an empty encoding *)
-Definition oer_skippable (std : bool) (c : list Z) : Prop :=
-  zlen c <= rssize_max /\ (std = true \/ c = []).
-
-Lemma oer_open_skip_rt std c r : oer_skippable std c -> oer_open_skip std (oer_open c ++ r) = Some r.
+(* oer_open_type_skip gets over an open type of any size (that the length determinant can carry) *)
+Lemma oer_open_skip_rt c r : zlen c <= rssize_max -> oer_open_skip (oer_open c ++ r) = Some r.
 Proof.
-  intros [Hsz Hs]. unfold oer_open_skip, oer_open. rewrite <- app_assoc.
+  intros Hsz. unfold oer_open_skip, oer_open. rewrite <- app_assoc.
   rewrite oer_fetch_length_inverse by (pose proof (zlen_nonneg c); lia).
-  destruct std.
-  - rewrite oer_take_app. reflexivity.
-  - destruct Hs as [Hs|Hs]; [discriminate|]. subst c. reflexivity.
+  rewrite oer_take_app. reflexivity.
 Qed.
 
 Definition wf_ety_oer (t : ety) : bool :=
@@ -656,13 +627,13 @@ Qed.
 Lemma map_is_present_nonnil avs : existsb is_present avs = true -> map is_present avs <> [].
 Proof. destruct avs; cbn; [discriminate|congruence]. Qed.
 
-Lemma ext_oer_seq_gen std tg root adds dadds rvs avs davs bs rest :
+Lemma ext_oer_seq_gen tg root adds dadds rvs avs davs bs rest :
   forallb wf_ty_oer root = true -> wt_oer (TSeq tg root) (VSeq rvs) = true ->
   ext_oer (ESeq tg root adds) (EVSeq rvs avs) = Some bs ->
   (forall ots, enc_additions oer oer_open adds avs = Some ots ->
-     dec_additions oer_open_get (oer_open_skip std) dadds (map is_present avs) (ots ++ rest) = Some (davs, rest)) ->
+     dec_additions oer_open_get oer_open_skip dadds (map is_present avs) (ots ++ rest) = Some (davs, rest)) ->
   (existsb is_present avs = false -> davs = absent_all dadds) ->
-  ext_oer_dec std (ESeq tg root dadds) (bs ++ rest) = Some (EVSeq rvs davs, rest).
+  ext_oer_dec (ESeq tg root dadds) (bs ++ rest) = Some (EVSeq rvs davs, rest).
 Proof.
   intros Hwfr Hwr He Hadd Hnone.
   cbn [ext_oer] in He.
@@ -710,22 +681,36 @@ Proof.
   apply andb_true_iff in Hwf. destruct Hwf as [Hwfr Hwfa]. auto.
 Qed.
 
-Theorem ext_oer_seq_fwd std tg root adds rvs avs bs rest k :
+Lemma all_enc_weaken enc (P Q : list Z -> Prop) : forall ts vs,
+  (forall t v c, enc t v = Some c -> P c -> Q c) -> all_enc enc P ts vs -> all_enc enc Q ts vs.
+Proof.
+  induction ts as [|t ts IH]; intros vs HPQ H; destruct vs as [|v vs]; cbn [all_enc] in *; auto.
+  destruct v; auto. destruct H as [Hc Hr]. split; [|auto]. intros c Hcc. eapply HPQ; eauto.
+Qed.
+
+Lemma adds_ok_all_enc_size adds avs :
+  adds_ok (fun t v => wt_oer t v = true /\ forall c, oer t v = Some c -> zlen c <= rssize_max) adds avs ->
+  all_enc oer (fun c => zlen c <= rssize_max) adds avs.
+Proof.
+  revert avs. induction adds as [|t ts IH]; intros avs H; destruct avs as [|v vs]; cbn [adds_ok all_enc] in *; auto.
+  destruct v; auto; try contradiction. destruct H as [[_ Hs] Hr]. split; auto.
+Qed.
+
+Theorem ext_oer_seq_fwd tg root adds rvs avs bs rest k :
   wf_ety_oer (ESeq tg root adds) = true -> wt_ety_oer (ESeq tg root adds) (EVSeq rvs avs) ->
   ext_oer (ESeq tg root adds) (EVSeq rvs avs) = Some bs ->
-  all_enc oer (oer_skippable std) (skipn k adds) (skipn k avs) ->
-  ext_oer_dec std (ESeq tg root (firstn k adds)) (bs ++ rest) = Some (EVSeq rvs (firstn k avs), rest).
+  ext_oer_dec (ESeq tg root (firstn k adds)) (bs ++ rest) = Some (EVSeq rvs (firstn k avs), rest).
 Proof.
-  intros Hwf [Hwr Hwa] He Hsk. destruct (wf_ety_oer_parts _ _ _ Hwf) as (Hwfr & Hwfa & Hno).
+  intros Hwf [Hwr Hwa] He. destruct (wf_ety_oer_parts _ _ _ Hwf) as (Hwfr & Hwfa & Hno).
   pose proof (oer_adds_ok_wf adds avs Hwfa Hno Hwa) as Hok.
-  apply (ext_oer_seq_gen std tg root adds (firstn k adds) rvs avs (firstn k avs) bs rest Hwfr Hwr He).
+  apply (ext_oer_seq_gen tg root adds (firstn k adds) rvs avs (firstn k avs) bs rest Hwfr Hwr He).
   - intros ots Eo.
-    apply (additions_fwd oer oer_open oer_open_get (oer_open_skip std) oer_add_ok (oer_skippable std)).
+    apply (additions_fwd oer oer_open oer_open_get oer_open_skip oer_add_ok (fun c => zlen c <= rssize_max)).
     + intros t v c r Hv Hc. apply oer_open_get_rt; assumption.
     + intros c r Hc. apply oer_open_skip_rt; assumption.
     + exact Hok.
     + exact Eo.
-    + exact Hsk.
+    + apply all_enc_skipn. apply adds_ok_all_enc_size. exact Hwa.
   - intros Eany. cbn [ext_oer] in He.
     destruct (enc_members oer root rvs); [|discriminate].
     destruct (enc_additions oer oer_open adds avs) as [ots|] eqn:Eo; [|discriminate].
@@ -733,16 +718,16 @@ Proof.
 Qed.
 
 (* older sender, newer reader (the bitmap is shorter than the reader's list of additions) *)
-Theorem ext_oer_seq_bwd std tg root known more rvs avs bs rest :
+Theorem ext_oer_seq_bwd tg root known more rvs avs bs rest :
   wf_ety_oer (ESeq tg root known) = true -> wt_ety_oer (ESeq tg root known) (EVSeq rvs avs) ->
   ext_oer (ESeq tg root known) (EVSeq rvs avs) = Some bs ->
-  ext_oer_dec std (ESeq tg root (known ++ more)) (bs ++ rest) = Some (EVSeq rvs (avs ++ absent_all more), rest).
+  ext_oer_dec (ESeq tg root (known ++ more)) (bs ++ rest) = Some (EVSeq rvs (avs ++ absent_all more), rest).
 Proof.
   intros Hwf [Hwr Hwa] He. destruct (wf_ety_oer_parts _ _ _ Hwf) as (Hwfr & Hwfa & Hno).
   pose proof (oer_adds_ok_wf known avs Hwfa Hno Hwa) as Hok.
-  apply (ext_oer_seq_gen std tg root known (known ++ more) rvs avs (avs ++ absent_all more) bs rest Hwfr Hwr He).
+  apply (ext_oer_seq_gen tg root known (known ++ more) rvs avs (avs ++ absent_all more) bs rest Hwfr Hwr He).
   - intros ots Eo.
-    apply (additions_bwd oer oer_open oer_open_get (oer_open_skip std) oer_add_ok).
+    apply (additions_bwd oer oer_open oer_open_get oer_open_skip oer_add_ok).
     + intros t v c r Hv Hc. apply oer_open_get_rt; assumption.
     + exact Hok.
     + exact Eo.
@@ -752,20 +737,20 @@ Proof.
     destruct (enc_additions_none _ _ _ _ _ Eo Eany) as [-> _]. unfold absent_all. rewrite map_app. reflexivity.
 Qed.
 
-(* C01 for an extensible SEQUENCE in OER, in a stream (the C's reader and the X.696 reader alike) *)
-Theorem ext_oer_seq_rt std tg root adds rvs avs bs rest :
+(* C01 for an extensible SEQUENCE in OER, in a stream *)
+Theorem ext_oer_seq_rt tg root adds rvs avs bs rest :
   wf_ety_oer (ESeq tg root adds) = true -> wt_ety_oer (ESeq tg root adds) (EVSeq rvs avs) ->
   ext_oer (ESeq tg root adds) (EVSeq rvs avs) = Some bs ->
-  ext_oer_dec std (ESeq tg root adds) (bs ++ rest) = Some (EVSeq rvs avs, rest).
+  ext_oer_dec (ESeq tg root adds) (bs ++ rest) = Some (EVSeq rvs avs, rest).
 Proof.
   intros Hwf Hwt He.
   assert (Hlen : length avs = length adds).
   { cbn [ext_oer] in He. destruct (enc_members oer root rvs); [|discriminate].
     destruct (enc_additions oer oer_open adds avs) eqn:E; [|discriminate].
     eapply enc_additions_length; eauto. }
-  pose proof (ext_oer_seq_fwd std tg root adds rvs avs bs rest (length adds) Hwf Hwt He) as H.
+  pose proof (ext_oer_seq_fwd tg root adds rvs avs bs rest (length adds) Hwf Hwt He) as H.
   rewrite firstn_length_all in H. rewrite (firstn_all2 avs) in H by lia.
-  apply H. rewrite skipn_all. exact I.
+  exact H.
 Qed.
 
 (* ---------------- extensible CHOICE in OER ---------------- *)
@@ -806,10 +791,10 @@ Proof.
   eapply disjointb_spec; [eapply alts_distinct_nth; eauto|exact E|exact Hin].
 Qed.
 
-Theorem ext_oer_choice_rt std root exts i v' bs rest :
+Theorem ext_oer_choice_rt root exts i v' bs rest :
   wf_ety_oer (EChoice root exts) = true -> wt_ety_oer (EChoice root exts) (EVAlt i v') ->
   ext_oer (EChoice root exts) (EVAlt i v') = Some bs ->
-  ext_oer_dec std (EChoice root exts) (bs ++ rest) = Some (EVAlt i v', rest).
+  ext_oer_dec (EChoice root exts) (bs ++ rest) = Some (EVAlt i v', rest).
 Proof.
   intros Hwf [Hwt Hsz] He. cbn [wf_ety_oer wf_ty_oer] in Hwf.
   apply andb_true_iff in Hwf. destruct Hwf as [Hwf Hdis].
@@ -861,9 +846,9 @@ Proof.
 Qed.
 
 (* C01, OER, the extensible types of the layer, in a stream *)
-Theorem ext_oer_roundtrip_in_stream std t v bs rest :
+Theorem ext_oer_roundtrip_in_stream t v bs rest :
   wf_ety_oer t = true -> wt_ety_oer t v -> ext_oer t v = Some bs ->
-  ext_oer_dec std t (bs ++ rest) = Some (v, rest).
+  ext_oer_dec t (bs ++ rest) = Some (v, rest).
 Proof.
   destruct t as [tg root adds|root exts]; destruct v as [rvs avs|i v']; intros Hwf Hwt He;
     try (cbn [wt_ety_oer] in Hwt; contradiction).
@@ -871,49 +856,21 @@ Proof.
   - apply ext_oer_choice_rt; assumption.
 Qed.
 
-Corollary ext_oer_decode_roundtrip std t v bs :
+Corollary ext_oer_decode_roundtrip t v bs :
   wf_ety_oer t = true -> wt_ety_oer t v -> ext_oer t v = Some bs ->
-  ext_oer_decode std t bs = Some (v, zlen bs).
+  ext_oer_decode t bs = Some (v, zlen bs).
 Proof.
   intros Hwf Hwt He. unfold ext_oer_decode.
-  pose proof (ext_oer_roundtrip_in_stream std t v bs [] Hwf Hwt He) as H. rewrite app_nil_r in H.
+  pose proof (ext_oer_roundtrip_in_stream t v bs [] Hwf Hwt He) as H. rewrite app_nil_r in H.
   rewrite H. f_equal. f_equal. unfold zlen. cbn [length]. lia.
 Qed.
 
-(* forward compatibility in OER *)
-Theorem ext_oer_forward_compat std tg root adds rvs avs bs rest k :
+(* forward compatibility in OER: every addition the reader does not know is skipped, whatever its size *)
+Theorem ext_oer_forward_compat tg root adds rvs avs bs rest k :
   wf_ety_oer (ESeq tg root adds) = true -> wt_ety_oer (ESeq tg root adds) (EVSeq rvs avs) ->
   ext_oer (ESeq tg root adds) (EVSeq rvs avs) = Some bs ->
-  all_enc oer (oer_skippable std) (skipn k adds) (skipn k avs) ->
-  ext_oer_dec std (truncate_ty k (ESeq tg root adds)) (bs ++ rest) = Some (truncate_val k (EVSeq rvs avs), rest).
-Proof. exact (ext_oer_seq_fwd std tg root adds rvs avs bs rest k). Qed.
-
-Lemma all_enc_weaken enc (P Q : list Z -> Prop) : forall ts vs,
-  (forall t v c, enc t v = Some c -> P c -> Q c) -> all_enc enc P ts vs -> all_enc enc Q ts vs.
-Proof.
-  induction ts as [|t ts IH]; intros vs HPQ H; destruct vs as [|v vs]; cbn [all_enc] in *; auto.
-  destruct v; auto. destruct H as [Hc Hr]. split; [|auto]. intros c Hcc. eapply HPQ; eauto.
-Qed.
-
-Lemma adds_ok_all_enc_size adds avs :
-  adds_ok (fun t v => wt_oer t v = true /\ forall c, oer t v = Some c -> zlen c <= rssize_max) adds avs ->
-  all_enc oer (fun c => zlen c <= rssize_max) adds avs.
-Proof.
-  revert avs. induction adds as [|t ts IH]; intros avs H; destruct avs as [|v vs]; cbn [adds_ok all_enc] in *; auto.
-  destruct v; auto; try contradiction. destruct H as [[_ Hs] Hr]. split; auto.
-Qed.
-
-(* under X.696 every unknown addition is skipped *)
-Corollary ext_oer_forward_compat_std tg root adds rvs avs bs rest k :
-  wf_ety_oer (ESeq tg root adds) = true -> wt_ety_oer (ESeq tg root adds) (EVSeq rvs avs) ->
-  ext_oer (ESeq tg root adds) (EVSeq rvs avs) = Some bs ->
-  ext_oer_dec true (truncate_ty k (ESeq tg root adds)) (bs ++ rest) = Some (truncate_val k (EVSeq rvs avs), rest).
-Proof.
-  intros Hwf Hwt He. apply ext_oer_forward_compat; try assumption.
-  destruct Hwt as [_ Hwa]. apply all_enc_skipn.
-  apply (all_enc_weaken oer (fun c => zlen c <= rssize_max)); [|apply adds_ok_all_enc_size; exact Hwa].
-  intros t v c _ Hc. split; [exact Hc|left; reflexivity].
-Qed.
+  ext_oer_dec (truncate_ty k (ESeq tg root adds)) (bs ++ rest) = Some (truncate_val k (EVSeq rvs avs), rest).
+Proof. exact (ext_oer_seq_fwd tg root adds rvs avs bs rest k). Qed.
 
 (* ================= DER / BER ================= *)
 
@@ -1206,66 +1163,71 @@ Proof.
   rewrite H. f_equal. f_equal. unfold zlen. cbn [length]. lia.
 Qed.
 
-(* ================= where the C deviates: witnesses ================= *)
+(* ================= the former witnesses, now examples (non-vacuity) ================= *)
 
-(* 65 BOOLEAN additions, the first one present *)
+(* 65 BOOLEAN additions, the first one present: uper_put_nslength used to leave out the leading 1 bit
+   (the C's own reader failed); now the value comes back and the bits are those of X.691 11.9.3.4 *)
 Definition wit_adds65 : list ty := map (fun k => TBool (Z.of_nat k * 4 + 6)) (seq 0 65).
 Definition wit_seq65 : ety := ESeq 64 [TBool 2] wit_adds65.
 Definition wit_val65 : eval := EVSeq [VBool true] (VSome (VBool true) :: repeat VNone 64).
 
-(* uper_put_nslength without the leading 1 bit: the C's own reader does not get the value back *)
-Theorem ext_uper_roundtrip_c_refuted :
-  exists t v bits, wf_ety_uper t = true /\ wt_ety_uper false t v /\
-    ext_uper false t v = Some bits /\ ext_uper_dec false t bits <> Some (v, []).
+Example ext_uper_seq65_example :
+  wf_ety_uper wit_seq65 = true /\ wt_ety_uper false wit_seq65 wit_val65 /\
+  exists bits, ext_uper false wit_seq65 wit_val65 = Some bits /\
+    ext_uper_dec false wit_seq65 bits = Some (wit_val65, []) /\
+    firstn 12 bits = [true; true; true; false; true; false; false; false; false; false; true; true].
 Proof.
-  exists wit_seq65, wit_val65. eexists. split; [vm_compute; reflexivity|].
-  split; [vm_compute; intuition|]. split; [vm_compute; reflexivity|]. vm_compute. discriminate.
+  split; [vm_compute; reflexivity|]. split; [vm_compute; intuition|].
+  eexists. split; [vm_compute; reflexivity|]. split; vm_compute; reflexivity.
 Qed.
 
-(* ... and what it writes is not what X.691 11.9.3.4 prescribes *)
-Theorem ext_uper_nslength_not_standard_refuted :
-  exists t v, ext_uper false t v <> ext_uper true t v.
-Proof. exists wit_seq65, wit_val65. vm_compute. discriminate. Qed.
-
-(* extension alternative with index 64: uper_put_nsnnwn without the leading 1 bit *)
+(* extension alternative with index 64: uper_put_nsnnwn used to leave out the leading 1 bit *)
 Definition wit_choice66 : ety := EChoice [TBool 2] (map (fun k => TBool (Z.of_nat k * 4 + 6)) (seq 0 66)).
 Definition wit_alt64 : eval := EVAlt 65 (VBool true).
 
-Theorem ext_uper_choice_roundtrip_c_refuted :
-  exists t v bits, wf_ety_uper t = true /\ wt_ety_uper false t v /\
-    ext_uper false t v = Some bits /\ ext_uper_dec false t bits <> Some (v, []) /\
-    ext_uper false t v <> ext_uper true t v.
+Example ext_uper_choice66_example :
+  wf_ety_uper wit_choice66 = true /\ wt_ety_uper false wit_choice66 wit_alt64 /\
+  exists bits, ext_uper false wit_choice66 wit_alt64 = Some bits /\
+    ext_uper_dec false wit_choice66 bits = Some (wit_alt64, []) /\
+    firstn 18 bits = [true; true; false; false; false; false; false; false; false; true;
+                      false; true; false; false; false; false; false; false].
 Proof.
-  exists wit_choice66, wit_alt64. eexists. split; [vm_compute; reflexivity|].
   split; [vm_compute; reflexivity|]. split; [vm_compute; reflexivity|].
-  split; vm_compute; discriminate.
+  eexists. split; [vm_compute; reflexivity|]. split; vm_compute; reflexivity.
 Qed.
 
-(* forward compatibility: an unknown BOOLEAN addition (one octet 80) is not skipped by uper_open_type_skip,
-   and oer_open_type_skip leaves its contents in the stream; the X.691 / X.696 readers get the known part back *)
+(* forward compatibility: an unknown BOOLEAN addition (one octet: 80 in unaligned PER, ff in OER) used to stop
+   uper_open_type_skip (not 3n octets) and to be left in the stream by oer_open_type_skip; now the reader
+   that knows one addition gets the known part back and consumes everything *)
 Definition wit_seq2 : ety := ESeq 64 [TBool 2] [TBool 6; TBool 10].
 Definition wit_val2 : eval := EVSeq [VBool true] [VSome (VBool false); VSome (VBool true)].
 
-Theorem ext_uper_forward_compat_c_refuted :
-  exists t v k bits, wf_ety_uper t = true /\ wt_ety_uper false t v /\ ext_uper false t v = Some bits /\
-    ext_uper true t v = Some bits /\
-    ext_uper_dec false (truncate_ty k t) bits = None /\
-    ext_uper_dec true (truncate_ty k t) bits = Some (truncate_val k v, []).
+Example ext_forward_compat_example :
+  (exists bits, ext_uper false wit_seq2 wit_val2 = Some bits /\
+     ext_uper_dec false (truncate_ty 1 wit_seq2) bits = Some (truncate_val 1 wit_val2, [])) /\
+  (exists bs, ext_oer wit_seq2 wit_val2 = Some bs /\
+     ext_oer_dec (truncate_ty 1 wit_seq2) bs = Some (truncate_val 1 wit_val2, [])).
 Proof.
-  exists wit_seq2, wit_val2, 1%nat. eexists. split; [vm_compute; reflexivity|].
-  split; [vm_compute; intuition|]. repeat split; vm_compute; reflexivity.
+  split; eexists; (split; [vm_compute; reflexivity|]); vm_compute; reflexivity.
 Qed.
 
-Theorem ext_oer_forward_compat_c_refuted :
-  exists t v k bs, wf_ety_oer t = true /\ wt_ety_oer t v /\ ext_oer t v = Some bs /\
-    ext_oer_dec false (truncate_ty k t) bs <> Some (truncate_val k v, []) /\
-    ext_oer_dec true (truncate_ty k t) bs = Some (truncate_val k v, []).
+(* nine OPTIONAL root members: the OER preamble (extension bit + 9 presence bits) takes two octets and the
+   extension bit is the first bit of the first one.  SEQUENCE_decode_oer used to test the octet its bit reader had
+   moved on to (the one holding the 8th presence bit) and so took { z TRUE, e TRUE } for a value without additions:
+   consumed 3 of 8 octets *)
+Definition wit_seq_p9 : ety :=
+  ESeq 64 (map (fun k => TOpt (TBool (Z.of_nat k * 4 + 2))) (seq 0 9) ++ [TBool 82]) [TBool 122].
+Definition wit_val_p9 : eval := EVSeq (repeat VNone 9 ++ [VBool true]) [VSome (VBool true)].
+
+Example ext_oer_preamble9_example :
+  wf_ety_oer wit_seq_p9 = true /\ wt_ety_oer wit_seq_p9 wit_val_p9 /\
+  ext_oer wit_seq_p9 wit_val_p9 = Some [128; 0; 255; 2; 7; 128; 1; 255] /\
+  ext_oer_dec wit_seq_p9 [128; 0; 255; 2; 7; 128; 1; 255] = Some (wit_val_p9, []).
 Proof.
-  exists wit_seq2, wit_val2, 1%nat. eexists. split; [vm_compute; reflexivity|].
-  split.
-  { cbn [wt_ety_oer wit_seq2 wit_val2 adds_ok]. split; [reflexivity|].
+  split; [vm_compute; reflexivity|]. split.
+  { cbn [wt_ety_oer wit_seq_p9 wit_val_p9 adds_ok]. split; [vm_compute; reflexivity|].
     repeat split; intros c H; vm_compute in H; injection H as <-; vm_compute; discriminate. }
-  split; [vm_compute; reflexivity|]. split; [vm_compute; discriminate|vm_compute; reflexivity].
+  split; vm_compute; reflexivity.
 Qed.
 
 (* version brackets: asn1c flattens  ..., [[ g0 BOOLEAN, g1 INTEGER (0..255) OPTIONAL ]], g2 NULL  into three
